@@ -425,7 +425,7 @@ def sel_c15(g, o):
 
 
 def sel_c16(g, o):
-    if o['cls'] in SAFETY_CLASSES:
+    if o['cls'] in SAFETY_CLASSES or o['cls'] == 'static' or '.keyset.' in g.name:
         return True
     if re.search(r'spec sanity|released|releases|freed|scratch|holds n entries|in range|writable|OOB|size|owns|life cycle', o['desc']):
         return True
@@ -486,8 +486,42 @@ def c15_groups(tier):
     return gs
 
 
+def keyset_dtor_scan(group):
+    """static AST fact: the three API structures of tfhe_gate_bootstrapping_structures.h declare no destructor (the implicit one does nothing),
+    which is what harness/c16_keyset.c assumes when it maps `delete p` to a no-op destructor plus free"""
+    out = []
+    cpp = os.path.join(X.SRC, GBS)
+    for cls in ('TFheGateBootstrappingParameterSet', 'TFheGateBootstrappingCloudKeySet', 'TFheGateBootstrappingSecretKeySet'):
+        found, user = [False], []
+
+        def visit(o):
+            if o.get('kind') == 'CXXRecordDecl' and o.get('name') == cls and o.get('completeDefinition'):
+                found[0] = True
+                for c in o.get('inner', []) or []:
+                    if c.get('kind') == 'CXXDestructorDecl' and not c.get('isImplicit'):
+                        user.append(c.get('name'))
+                    if c.get('kind') == 'FieldDecl' and not re.search(r'\*|int32_t|TFheGateBootstrappingCloudKeySet', c.get('type', {}).get('qualType', '')):
+                        user.append('field ' + c.get('name', '?') + ' of class type')
+            for c in o.get('inner', []) or []:
+                visit(c)
+        for o in X.clang_ast(cpp, cls):
+            visit(o)
+        if not found[0]:
+            raise X.ExtractionError('definition of %s not found' % cls)
+        out.append(('%s.implicit_trivial_destructor' % cls, not user, 'static AST fact: %s has no user-declared destructor and only pointer / integer fields%s' % (cls, (' -- found ' + ', '.join(user)) if user else '')))
+    return out
+
+
+def keyset_groups(tag):
+    fns = ['delete_gate_bootstrapping_secret_keyset', 'delete_gate_bootstrapping_cloud_keyset', 'delete_gate_bootstrapping_parameters', 'new_gate_bootstrapping_ciphertext',
+           'new_gate_bootstrapping_ciphertext_array', 'delete_gate_bootstrapping_ciphertext', 'delete_gate_bootstrapping_ciphertext_array']
+    return [Group(tag + '.keyset.lifecycle', 'c16_keyset.c', 'h_keyset_lifecycle', extract=[(GB, f) for f in fns], cbmc=['--memory-leak-check']),
+            StaticGroup(tag + '.static.keyset_dtors_implicit', keyset_dtor_scan)]
+
+
 def c16_groups(tier):
     gs = alloc_groups('C16', tier)
+    gs += keyset_groups('C16')
     gs += boot_groups('C16')
     gs += [g for g in c08_groups(tier, 'C16') if 'translate' in g.name]      # bounded (real table) and unbounded-in-n (uniform table) variants
     dz = [g for g in c12_groups(tier, 'C16') if 'lemma' not in g.name]
